@@ -45,7 +45,8 @@ def check_bootstrap(case):
     facts = dict(n=n, alpha=alpha, n_estimators=ne, weights=case["weights"], n_jobs=case["n_jobs"])
     # the base estimator may itself be seeded (DecisionTreeRegressor(random_state=0) is the usual thing to pass): the resamples are the
     # meta-estimator's business and stay independent draws
-    base = RecordingRegressor(yield_fit=case.get("yield_fit", 0), random_state=case.get("base_random_state"))
+    base = RecordingRegressor(yield_fit=case.get("yield_fit", 0), random_state=case.get("base_random_state"), keep_reference=bool(case.get("keep_reference")))
+    facts["keep_reference"] = bool(case.get("keep_reference"))
     facts["base_random_state"] = case.get("base_random_state")
     model = _mod.IntervalRegressor(estimator=base, **np_scalars(dict(n_estimators=ne, alpha=alpha, n_jobs=case["n_jobs"]), case.get("np_params", False)))
     # the training table may be a DataFrame and the targets / weights pandas Series whose index is not 0..n-1 in order (a frame that
@@ -161,7 +162,8 @@ def _boot_cases(draw, tier="quick"):
     return dict(n=n, d=draw(st.integers(1, 3)), alpha=alpha, n_estimators=ne, weights=draw(st.booleans()),
                 n_jobs=draw(st.sampled_from([None, None, 1, 2])), seed=draw(st.integers(0, 2**31 - 1)),
                 yield_fit=draw(st.sampled_from([0, 0, 1])), base_random_state=draw(st.sampled_from([None, None, 0, 7, 12345])), zero_w=draw(st.lists(st.integers(0, 11), max_size=3)) if draw(st.integers(0, 2)) == 0 else [],
-                container=draw(st.sampled_from(["array", "array", "frame", "frame-permuted-index", "series-permuted-index"])))
+                container=draw(st.sampled_from(["array", "array", "frame", "frame-permuted-index", "series-permuted-index"])),
+                keep_reference=draw(st.booleans()))
 
 
 @st.composite
